@@ -29,7 +29,7 @@ func (store *Memory) beInitialized() {
 }
 
 func (store *Memory) OpenRead(lnkCtx linking.LinkContext, lnk datamodel.Link) (io.Reader, error) {
-	store.beInitialized()
+	// n.b. no lazy initialization here: reading a nil map is fine, and a read must not write to the store.
 	cl, ok := lnk.(Link)
 	if !ok {
 		return nil, fmt.Errorf("incompatible link type: %T", lnk)
